@@ -1,5 +1,16 @@
 """Which properties are claimed (check built) and which are not (yet)."""
-CLAIMED = {}
+CLAIMED = {
+ 'C01': dict(
+   technique='Lean 4 theorems (iteratedDeriv / coefficient recurrences) about a hand-written model + differential correspondence model<->code',
+   text=('Theorems for every D, every input series and every d<D: analytic layer (model coefficient = (1/d!) d^d/dt^d f(x(t)) at 0) for exp, sin, cos, log, sqrt, reciprocal; '
+         'formal layer (defining convolution identity over any char-0 field) for the same. The other functions of the property are modelled (all 34 entry points) and tied by the '
+         'correspondence run (exact-rational model vs float/complex implementation) plus an independent Cauchy-integral oracle on the implementation; their all-input theorems are not proved yet (partial).')),
+ 'C12': dict(
+   technique='Lean 4 theorems (prefix stability of the build combinator) + truncation oracle on the implementation',
+   text=('Theorem (F x).take D\' = F (x.take D\') for every L0 kernel that is a build/convolution recurrence (28 theorems, any field): arithmetic, exp, log, sqrt, powers, '
+         'trigonometric/hyperbolic pairs, arcsin/arccos/arctan, black/white family and its compositions. Fold-based kernels (Faa-di-Bruno family, dawsn) and matrix kernels are covered by the '
+         'implementation-level truncation oracle over 79 registered public operations, not by a theorem yet (partial).')),
+}
 _todo = 'check under construction in this session: Lean model/theorems and correspondence not committed yet'
 NOT_APPLICABLE = {('C%02d' % i): _todo for i in range(1, 18)}
 for k in CLAIMED:
